@@ -75,10 +75,19 @@ def data_block(rng, mutate):
         if not wrapped:
             e = rng.choice([0, pos, cap])
     if mutate:
-        k = rng.randrange(6)
+        k = rng.randrange(7)
         if k == 0: w = rng.choice([cap + 1, 1 << 63, rng.randrange(cap + 1)])
         if k == 1: r = rng.choice([cap + 1, (1 << 64) - 1, rng.randrange(cap + 1)])
         if k == 2: e = rng.choice([cap + 1, 1 << 40, rng.randrange(cap + 1)])
+        if k == 4:
+            # every index on a boundary value, in every order relation to the others
+            B = [0, 1, 2, cap // 2, max(cap - 1, 0), cap, cap + 1, cap + 2, 2 * cap, cap + abs(r - w)]
+            w, e, r = rng.choice(B), rng.choice(B), rng.choice(B)
+        if k == 5 and cap >= 2:
+            # wrapped layout (w < r) whose dataEnd lies just beyond the capacity
+            w = rng.randrange(0, cap)
+            r = rng.randrange(w + 1, cap + 1)
+            e = cap + rng.randrange(1, r - w + 1)
         if k == 3: cap2 = rng.choice([cap + 1000, 1 << 50, 0]); return DATA_MAGIC + G.u64(3) + G.u64(w) + G.u64(e) + G.u64(cap2) + G.u64(0xdead) + G.u64(r) + bytes(buf)
     return DATA_MAGIC + G.u64(rng.choice([1, 2, 0x7f0000001000])) + G.u64(w) + G.u64(e) + G.u64(cap) + G.u64(0xdeadbeef) + G.u64(r) + bytes(buf)
 
@@ -176,7 +185,10 @@ CHECKS = {'C20': check_c20}
 import struct
 import checks_session as CS
 
-C08_THEOREMS = []
+C08_THEOREMS = ['BinlogVerif.C08.c08_scan_blocks', 'BinlogVerif.C08.c08_scan_blocks_filler', 'BinlogVerif.C08.c08_meta_state_buffers',
+                'BinlogVerif.C08.c08_recovered_sorted', 'BinlogVerif.C08.c08_recovered_content', 'BinlogVerif.C08.c08_no_uncommitted',
+                'BinlogVerif.C08.c08_recovered_entries', 'BinlogVerif.C08.c08_complete_and_printable',
+                'BinlogVerif.C08.c08_complete_and_printable_states']
 
 
 def build_crash_harness():
@@ -199,6 +211,10 @@ def crash_script(rng):
     ops = [o.strip() for o in base.split('|')][1:]
     # the crash harness knows a subset of the ops; sources are registered often so that the metadata vector reallocates
     keep = []
+    # an earlier session of the process, destroyed with unconsumed events: stale queues in freed heap memory
+    if rng.random() < 0.6:
+        for _ in range(rng.choice([1, 2, 3])):
+            keep.append('pre %d %d' % (rng.choice([24, 30, 48, 64, 100, 128, 1024]), rng.choice([1, 2, 3])))
     for o in ops:
         t = o.split(' ')
         if t[0] in ('cw', 'src', 'log', 'dw', 'cs', 'consume', 'sname'):
@@ -223,12 +239,94 @@ def run_crash(exe, brec, ops, point, k, workdir, tag):
     consumed = open(dump + '.out', 'rb').read() if os.path.exists(dump + '.out') else b''
     e2 = dict(os.environ); e2['ASAN_OPTIONS'] = 'detect_leaks=0'
     q = subprocess.run([brec, dump, '-'], stdout=subprocess.PIPE, stderr=subprocess.PIPE, env=e2, timeout=300)
+    with open(dump, 'rb') as f:
+        blocks, rejected, compact = scan_image(f.read())
+    res['hyp'] = image_hypotheses(blocks, point)
+    res['rejected'] = rejected
+    res['empty_junk'] = sum(1 for b in blocks if not (b.get('content') or b.get('pending')))
+    res['compact'] = compact
+    res['nblocks'] = len(blocks)
     for f in (dump, dump + '.out'):
         if os.path.exists(f):
             os.remove(f)
     res.update({'status': 'crashed', 'completed': completed, 'consumed': consumed, 'recovered': q.stdout, 'brecovery_rc': q.returncode,
                 'brecovery_err': q.stderr.decode('latin1')[-300:], 'brecovery_log': q.stderr.decode('latin1')})
     return res
+
+
+def scan_image(img, max_block=1 << 24):
+    """the scan of the recovery tool (Reader/Recovery.lean `scan`) replayed on a real memory image: every magic number the scan
+    stops at is either ACCEPTED as a block (and jumped over) or REJECTED (the scan resumes right behind the 8 magic bytes).
+    Returns (accepted blocks, number of rejected candidates, compact image).  The compact image is the accepted blocks
+    separated by 8 zero bytes: what the image is to the tool if the rest of the memory is inert (`Image.Inert`)."""
+    blocks, rejected = [], 0
+    pos = 0
+    n = len(img)
+    while True:
+        pm, pd = img.find(META_MAGIC, pos), img.find(DATA_MAGIC, pos)
+        cands = [x for x in (pm, pd) if x != -1]
+        if not cands:
+            break
+        at = min(cands)
+        body = at + 8
+        b = None
+        if at == pm:
+            if body + 16 <= n:
+                size = int.from_bytes(img[body + 8:body + 16], 'little')
+                if size <= n - (body + 16):
+                    content = img[body + 16:body + 16 + size]
+                    if CS.parse_entries(content) is not None:
+                        b = {'kind': 'meta', 'pos': at, 'session': int.from_bytes(img[body:body + 8], 'little'), 'size': size,
+                             'content': content, 'end': body + 16 + size}
+        else:
+            if body + 48 <= n:
+                f = [int.from_bytes(img[body + 8 * i:body + 8 + 8 * i], 'little') for i in range(6)]
+                sess, w, e, cap, ptr, r = f
+                if w <= cap and e <= cap and r <= cap and cap <= n - (body + 48):
+                    buf = img[body + 48:body + 48 + cap]
+                    data = buf[r:w] if r <= w else ((buf[r:e] + buf[:w]) if r < e else buf[:w])
+                    if CS.parse_entries(data) is not None:
+                        b = {'kind': 'data', 'pos': at, 'session': sess, 'w': w, 'e': e, 'cap': cap, 'r': r, 'pending': data, 'end': body + 48 + cap}
+        if b is None:
+            rejected += 1
+            pos = body
+        else:
+            blocks.append(b)
+            pos = b['end']
+    compact = b''
+    for b in blocks:
+        compact += bytes(8) + img[b['pos']:b['end']]
+    return blocks, rejected, compact + bytes(8)
+
+
+def image_hypotheses(blocks, point):
+    """are the hypotheses of the C08 theorems (ImageOkI / Represents: Conc/Image.lean, Lemmas/ImageSession.lean) met by this
+    real image?  Everything the tool accepts must be a block of the one live session, in one of the states of `MetaState`
+    for the crash point.  Returns a text when they are not."""
+    sessions = {}
+    live = [b for b in blocks if (b.get('content') or b.get('pending'))]
+    # accepted candidates with an EMPTY buffer (stale magic numbers on the stack followed by a pointer and zeros) contribute
+    # nothing to the output (`Image.InertE`); empty blocks of the live session are its real, still empty blocks
+    live_sessions = set(b['session'] for b in live) or set(b['session'] for b in blocks if b['kind'] == 'data')
+    if not live_sessions:
+        return None          # nothing but empty buffers: the recovered log is empty
+    blocks = [b for b in blocks if b['session'] in live_sessions]
+    for b in blocks:
+        sessions.setdefault(b['session'], []).append(b)
+    meta_sessions = [k for k, v in sessions.items() if any(b['kind'] == 'meta' for b in v)]
+    if len(meta_sessions) != 1:
+        return 'accepted metadata blocks of %d sessions in the image (the model has one live session)' % len(meta_sessions)
+    if len(sessions) != 1:
+        return 'the tool accepts a block of a session that has no metadata in the image (stale queue?): sessions %s' % sorted(sessions)
+    n = sum(1 for b in blocks if b['kind'] == 'meta')
+    want = 3 if point == 'meta-magic-set' else 2
+    if n != want:
+        return '%d metadata blocks carry the magic number at crash point %s, the image model (MetaState) says %d' % (n, point, want)
+    if want == 3:
+        contents = sorted(b['content'] for b in blocks if b['kind'] == 'meta')
+        if contents[0] != contents[1] and contents[1] != contents[2]:
+            return 'while growing with both magic numbers set the old and the new block differ (MetaState.growingBoth fails)'
+    return None
 
 
 def analyse_crash(res, attempted):
@@ -344,6 +442,34 @@ def check_c08(ctx):
                            'recovered_hex': res['recovered'].hex()[:4000], 'consumed_bytes': len(res['consumed']),
                            'replay': 'echo "<script>" | VERIF_DUMP=/tmp/core build/bin/crash_harness-* && build/bin/brecovery-* /tmp/core -'})
     ctx.streams['crash_images'] = by_point
+    # tie of the image model: (1) the hypotheses of the theorems hold of every real image; (2) the model of the recovery tool, run
+    # on the blocks of the real image, produces exactly what the real tool produced from the full image
+    crashed = [(j, res) for j, res, what in results if res['status'] == 'crashed']
+    hyp_fail = 0
+    for (si, ops, attempted, point, k), res in crashed:
+        if res.get('hyp') and (si, point, k) not in prop_fail:
+            hyp_fail += 1
+            if hyp_fail <= 3:
+                ctx.violation('corr-image-hyp-%s-%d' % (point, k), 'correspondence image-hypotheses broke: a real memory image does not satisfy the hypotheses of the C08 theorems: ' + res['hyp'],
+                              {'kind': 'correspondence', 'stream': 'image_hypotheses', 'script': res['line'], 'point': point, 'hit': k,
+                               'broken': 'hypotheses ImageOk / Represents of BinlogVerif.C08.c08_complete_and_printable on a real image'}, found_input=False)
+    lines = ['recover ' + G.hexs(res['compact']) for _, res in crashed]
+    rc, model, err = run_lines(driver_path(), lines)
+    mm = 0
+    for i, ((si, ops, attempted, point, k), res) in enumerate(crashed):
+        want = 'out=' + res['recovered'].hex() if res['brecovery_rc'] == 0 else 'out=CRASH'
+        got = model[i] if i < len(model) else '<none>'
+        if got != want and (si, point, k) not in prop_fail and not res.get('hyp'):
+            mm += 1
+            if mm <= 3:
+                ctx.violation('corr-image-recover-%s-%d' % (point, k), 'correspondence image_recover broke: the model of the recovery tool on the blocks of a real image differs from what the real tool recovered',
+                              {'kind': 'correspondence', 'stream': 'image_recover', 'script': res['line'], 'point': point, 'hit': k, 'model': got[:2000],
+                               'impl': want[:2000], 'compact_image_hex': res['compact'].hex()[:20000], 'broken': 'correspondence stream image_recover / Props.C08'},
+                              found_input=False)
+    ctx.streams['image_model'] = {'images': len(crashed), 'hypotheses_not_met': hyp_fail, 'recover_mismatches': mm, 'model_rc': rc,
+                                  'blocks_per_image_max': max([res['nblocks'] for _, res in crashed] or [0]),
+                                  'accepted_empty_buffers_total': sum(res.get('empty_junk', 0) for _, res in crashed),
+                                  'rejected_magic_candidates_total': sum(res.get('rejected', 0) for _, res in crashed)}
     finish_proof(ctx, ok, bool(prop_fail))
     total = sum(s['images'] for s in by_point.values())
     ctx.coverage.update({'evaluations': total, 'distinct_nontrivial': len(nontrivial), 'traces_validated_against_impl': total - len(prop_fail),
